@@ -336,6 +336,24 @@ func genC12(t *rapid.T) C12Case {
 		}
 	}
 	c.Cmd = rapid.SampledFrom([]string{"view", "view", "view-raw", "view-raw", "sum", "sum", "diff", "diff", "copy", "copy", "sum-diff", "sum-copy"}).Draw(t, "cmd")
+	manyItems := false
+	if rapid.IntRange(0, 14).Draw(t, "bigListing") == 0 {
+		// listings of several kilobytes (more names than fit any one buffer / a single response chunk)
+		tiny := Layout{Archives: []Arch{{Step: l.Archives[0].Step, Points: 3}}, Method: l.Method, XFF: l.XFF}
+		if rapid.Bool().Draw(t, "manyItems") {
+			manyItems = true
+			n := rapid.IntRange(90, 220).Draw(t, "itemCount")
+			for i := 0; i < n; i++ {
+				c.Files = append(c.Files, TreeFile{Dir: fmt.Sprintf("many/item%03d", i), Name: "f1.wsp", Spec: FileSpec{L: tiny, Fill: 2, FillBase: F64(float64(i))}})
+			}
+		} else {
+			d := c.Files[0].Dir
+			n := rapid.IntRange(110, 260).Draw(t, "fileCount")
+			for i := 0; i < n; i++ {
+				c.Files = append(c.Files, TreeFile{Dir: d, Name: fmt.Sprintf("h%03d.wsp", i), Spec: FileSpec{L: c.Files[0].Spec.L, Fill: 2, FillBase: F64(float64(i))}})
+			}
+		}
+	}
 	pick := c.Files[rapid.IntRange(0, len(c.Files)-1).Draw(t, "pick")]
 	exists := rapid.IntRange(0, 5).Draw(t, "exists") > 0
 	switch c.Cmd {
@@ -346,6 +364,9 @@ func genC12(t *rapid.T) C12Case {
 		}
 	case "sum", "sum-diff", "sum-copy":
 		c.Item, c.Pattern = genTreePatterns(t, c.Files)
+		if manyItems {
+			c.Item, c.Pattern = "many/*", "*.wsp"
+		}
 	case "diff", "copy":
 		switch rapid.IntRange(0, 3).Draw(t, "relKind") {
 		case 0:
